@@ -19,6 +19,9 @@ RULE = ("cases = (layer, filter family, size, channels, bias, colour, input kind
 
 def run(rep):
     if rep.tier == "thorough":
+        from .. import proofs
+        proofs.attach(rep, "ScatProofs")      # TLAPS: size extensions and channel flattenings for ALL sizes / channel counts
+    if rep.tier == "thorough":
         from .. import apalache
         apalache.shape_lemmas(rep)
     fnd = Findings()
